@@ -92,7 +92,8 @@ Theorem C10_urlenc_field_typed : forall t p s v,
 Proof. exact urlenc_field_typed. Qed.
 
 Section C10_typed_bodies.
-  (* serde_json for the endpoint's body type, as body.rs calls it *)
+  (* serde_json for the endpoint's body type, as body.rs calls it: the whole
+     buffer must be one JSON document *)
   Variable V : Type.
   Variable json_de : str -> option V.
 
@@ -107,29 +108,13 @@ Section C10_typed_bodies.
               /\ xerr_status e = Some 400.
   Proof. exact (wrong_content_type_refused V json_de). Qed.
 
-  (* parser failure *)
-  Theorem C10_json_parser_failure_refused : forall sp h cap frames body,
+  (* malformed JSON: whatever is not, as a whole, one JSON text of the body
+     type ([json_de]: deserialize one value, then Deserializer::end()) *)
+  Theorem C10_malformed_json_refused : forall sp h cap frames body,
     buffer_body cap frames = Ok body -> json_de body = None ->
     exists e, extract_typed_body json_de CtJson sp h cap frames = Err e
               /\ xerr_status e = Some 400.
   Proof. exact (malformed_json_refused V json_de). Qed.
-
-  (* "malformed JSON" as the property means it - the body is not a JSON text
-     of the type ([json_strict]) - is NOT always refused: K-JSONTRAIL *)
-  Variable json_strict : str -> option V.
-  Definition C10_malformed_json_full_statement : Prop :=
-    malformed_json_refused_full_statement V json_de json_strict.
-
-  Theorem C10_K_JSONTRAIL_refuted : forall body v,
-    json_de body = Some v -> json_strict body = None ->
-    ~ C10_malformed_json_full_statement.
-  Proof. exact (malformed_json_refused_refuted V json_de json_strict). Qed.
-
-  Theorem C10_K_JSONTRAIL_handler_entered : forall sp h cap frames body v,
-    (h = HAbsent \/ exists ct, h = HVal ct /\ ct_spelling CT_JSON ct) ->
-    buffer_body cap frames = Ok body -> json_de body = Some v ->
-    handle (extract_typed_body json_de CtJson sp h cap frames) = HandlerEntered (TJson v).
-  Proof. exact (json_front_value_accepted V json_de). Qed.
 End C10_typed_bodies.
 
 (* ---- clause 2: no handler on an extraction error ---- *)
@@ -204,9 +189,7 @@ Print Assumptions C10_extract_query_sound.
 Print Assumptions C10_urlenc_field_typed.
 Print Assumptions C10_typed_body_errors_400.
 Print Assumptions C10_wrong_content_type_refused.
-Print Assumptions C10_json_parser_failure_refused.
-Print Assumptions C10_K_JSONTRAIL_refuted.
-Print Assumptions C10_K_JSONTRAIL_handler_entered.
+Print Assumptions C10_malformed_json_refused.
 Print Assumptions C10_no_handler_on_extract_error.
 Print Assumptions C10_handler_entered_iff.
 Print Assumptions C10_all_extractors_must_succeed.
